@@ -244,6 +244,40 @@ fn union_typed_constants(total: &mut Stats) -> u64 {
     n as u64
 }
 
+/// `match` with type arms over a scrutinee of union type, where the checker (coverage) and the
+/// folder (pruning of arms) reason about how arm types and member types relate: every union of two
+/// of 9 member types x every ordered pair of 12 arm types x with / without a default arm x the match
+/// bound to a name / returned / as a statement, the scrutinee a parameter. Parse + check only.
+fn match_type_arm_grid(total: &mut Stats) -> u64 {
+    const MEMBERS: &[&str] = &["int", "string", "struct{w: int, h: int}", "struct{r: int, id: int}", "struct{w: int}", "(int, int)", "(int, int, int)", "[int]", "mut int"];
+    const ARMS: &[&str] = &["int", "string", "struct{w: int}", "struct{r: int}", "struct{w: int, h: int}", "struct{}", "(int, int)", "(any, any)", "[int]", "[any]", "mut int", "int|string"];
+    let mut texts: Vec<String> = Vec::new();
+    for (i, m1) in MEMBERS.iter().enumerate() {
+        for m2 in MEMBERS.iter().skip(i + 1) {
+            for a1 in ARMS {
+                for a2 in ARMS {
+                    for default in ["", " => 0,"] {
+                        let m = format!("match s {{ x: {a1} => 1, y: {a2} => 2,{default} }}");
+                        texts.push(format!("g := (s: {m1} | {m2}) -> any {{ r := {m}; return r }}"));
+                        texts.push(format!("g := (s: {m1} | {m2}) -> any {{ return {m} }}"));
+                        texts.push(format!("g := (s: {m1} | {m2}) -> any {{ {m}; return 0 }}"));
+                    }
+                }
+            }
+        }
+    }
+    let n = texts.len();
+    let states = par_fold(
+        n,
+        || (Stats::default(), Interpreter::with_stdlib()),
+        |(st, interp), i| probe(&texts[i], interp, "std", false, st),
+    );
+    for (s, _) in states {
+        total.merge(s);
+    }
+    n as u64
+}
+
 /// Lexical level, integer literals: 2^k - 1, 2^k, 2^k + 1 for k = 0..=65 (so every magnitude
 /// around i64::MAX, u64::MAX and beyond) in the four radixes, plain and with digit separators,
 /// in every position that reads an integer literal
@@ -550,6 +584,10 @@ pub fn run(tier: &str) -> i32 {
     // (b4) constants of union static type under every operator
     let n_union = union_typed_constants(&mut total);
     parts.insert("union_typed_constants".into(), json!({"kinds": 6, "ordered_pairs": 30, "second_operand_variants": 3, "binary_operators": 19, "contexts": 6, "other_forms": 16, "count": n_union}));
+
+    // (b5) match type arms against union scrutinees
+    let n_match = match_type_arm_grid(&mut total);
+    parts.insert("match_type_arm_grid".into(), json!(n_match));
 
     // (c) corpus mutations
     let (n_prog, n_ok, n_mut) = corpus_mutations(thorough, &mut total, &mut samples);
